@@ -801,5 +801,8 @@ BENIGN = [
     {"name": "reaction-loop-by-index", "file": T, "old": 'for rl, react in enumerate(tqdm(reactions, desc="Preparing ODE...")):', "new": 'for rl in range(len(reactions)):\n            react = reactions[rl]'},
     {"name": "fex-map-join-pipeline", "file": TEMPLATES["cvode"], "old": "    {% for eq in ode.fex -%}\n        {{ eq | stmwrap(80, 8) }}\n    {% endfor %}\n", "new": "    {{ ode.fex | map(\"stmwrap\", 80, 8) | map(\"suffix\", \"\\n    \") | join }}\n"},
     {"name": "signed-chain-of-rows", "file": T, "old": '            for specidx in rspecidx:\n                rhs[specidx] += f" - {rate_sym}[{rl}]*{rsym_mul}"\n            for specidx in pspecidx:\n                rhs[specidx] += f" + {rate_sym}[{rl}]*{rsym_mul}"\n', "new": '            import itertools\n            for sign, specidx in itertools.chain(zip(itertools.repeat(" - "), rspecidx), zip(itertools.repeat(" + "), pspecidx)):\n                rhs[specidx] += sign + f"{rate_sym}[{rl}]*{rsym_mul}"\n'},
+    {"name": "modifier-terms-from-generator", "edits": [
+        {"file": T, "old": '    def _prepare_ode_content(\n', "new": '    def _modifier_terms(self, species, species_kwargs, ode_modifier):\n        for sname, expr in ode_modifier.items():\n            sidx = species.index(Species(sname, **species_kwargs))\n            for fact, dep in zip(expr["factors"], expr["reactants"]):\n                depspec = [Species(d, **species_kwargs) for d in dep]\n                yield sidx, fact, depspec, [f"y[IDX_{d.alias}]" for d in depspec]\n\n    def _prepare_ode_content(\n'},
+        {"file": T, "old": '        for sname, expr in ode_modifier.items():\n            spec = Species(sname, **species_kwargs)\n            sidx = species.index(spec)\n            for fact, dep in zip(expr["factors"], expr["reactants"]):\n                depspec = [Species(d, **species_kwargs) for d in dep]\n                depsym = [f"y[IDX_{d.alias}]" for d in depspec]\n', "new": '        for sidx, fact, depspec, depsym in self._modifier_terms(species, species_kwargs, ode_modifier):\n'}]},
     {"name": "template-reindent", "file": TEMPLATES["cvode"], "old": "    {% for eq in ode.fex -%}\n        {{ eq | stmwrap(80, 8) }}", "new": "    {% for eq in ode.fex -%}\n      {{ eq|stmwrap(80, 6) }}"},
 ]
